@@ -7,11 +7,16 @@ import (
 	"fmt"
 	"strings"
 
+	"verifharness/hx"
+
 	"github.com/criyle/go-sandbox/ptracer"
 	"github.com/criyle/go-sandbox/runner/ptrace/filehandler"
 )
 
-func init() { register("c18", c18Main) }
+func main() {
+	hx.Register("run", c18Main)
+	hx.Main()
+}
 
 type c18Entry struct {
 	K string   `json:"k"`
@@ -98,19 +103,19 @@ func c18Main(args []string) error {
 	if len(args) != 6 {
 		return fmt.Errorf("want 6 file arguments")
 	}
-	setCases, err := readJSONLines[c18SetCase](args[0])
+	setCases, err := hx.ReadLines[c18SetCase](args[0])
 	if err != nil {
 		return err
 	}
-	compCases, err := readJSONLines[c18CompCase](args[1])
+	compCases, err := hx.ReadLines[c18CompCase](args[1])
 	if err != nil {
 		return err
 	}
-	hists, err := readJSONLines[c18Hist](args[2])
+	hists, err := hx.ReadLines[c18Hist](args[2])
 	if err != nil {
 		return err
 	}
-	so, err := newLineWriter(args[3])
+	so, err := hx.NewLineWriter(args[3])
 	if err != nil {
 		return err
 	}
@@ -140,7 +145,7 @@ func c18Main(args []string) error {
 		c.Got = &got
 		so.Write(c)
 	}
-	co, err := newLineWriter(args[4])
+	co, err := hx.NewLineWriter(args[4])
 	if err != nil {
 		return err
 	}
@@ -182,7 +187,7 @@ func c18Main(args []string) error {
 		c.Got = c18Action(a)
 		co.Write(c)
 	}
-	to, err := newLineWriter(args[5])
+	to, err := hx.NewLineWriter(args[5])
 	if err != nil {
 		return err
 	}
